@@ -79,6 +79,7 @@ static void report_and_transfer(session_t *S, int protocol, uint64_t seed, char 
 	if (S->c.hs_ret == 1 && S->s.hs_ret == 1 && strcmp(script, "-") != 0) {
 		char *save = NULL, *t; int nw[2] = { 0, 0 }; int first = 1;
 		ent_seed(seed + 77, -1);
+		short_send_mode = S->c.short_send; short_send_state = seed * 131 + 7; short_send_count = 0;
 		printf(" xfer=");
 		for (t = strtok_r(script, ",", &save); t; t = strtok_r(NULL, ",", &save)) {
 			int side = t[1] == 'c' ? 0 : 1; endpoint_t *e = side == 0 ? &S->c : &S->s;
@@ -132,6 +133,7 @@ static void report_and_transfer(session_t *S, int protocol, uint64_t seed, char 
 				for (i = start; i < S->px.nrec[d] && i < PMAXREC; i++) printf("%s%u:%zu", i > start ? "+" : "", S->px.rectype[d][i], S->px.reclen[d][i]);
 			}
 		}
+		printf(" xshort=%lu", short_send_count); short_send_mode = 0;
 		printf(" seq2="); puthex(S->c.conn->client_seq_num, 8); printf(":"); puthex(S->c.conn->server_seq_num, 8);
 		printf("/"); puthex(S->s.conn->client_seq_num, 8); printf(":"); puthex(S->s.conn->server_seq_num, 8);
 	}
@@ -169,9 +171,11 @@ static void do_hs(size_t nw, char **w) {
 	ent_seed(0xCA0000 + (uint64_t)nca, -1);
 	S = calloc(1, sizeof(*S));
 	if (setup_pair(S, k, protocol, auth, nca, seed, NULL, NULL) != 1) { printf("ERR setup"); free(S); return; }
+	/* split 3 / 4: both endpoints see short writes (stale errno EPIPE / EAGAIN), the proxy also splits what it forwards */
+	if (split >= 3) { S->c.short_send = S->s.short_send = split - 2; split = 1; }
 	S->px.split = split; S->px.split_seed = seed;
 	session_run(S, 8000, 1);
-	printf("chainlen=%zu/%zu ", S->s.ctx.certslen, S->c.ctx.certslen);
+	printf("chainlen=%zu/%zu shortsends=%lu/%lu ", S->s.ctx.certslen, S->c.ctx.certslen, S->c.short_sends, S->s.short_sends);
 	report_and_transfer(S, protocol, seed, w[6]);
 	session_close(S); free(S);
 }
@@ -218,9 +222,72 @@ int tls13_hkdf_expand_label(const DIGEST *digest, const uint8_t secret[32], cons
 int tls13_compute_verify_data(const uint8_t *handshake_traffic_secret, const DIGEST_CTX *dgst_ctx,
 	uint8_t *verify_data, size_t *verify_data_len);
 
+/* ---- credential loaders from files: tls_ctx_set_ca_certificates, tls_ctx_set_certificate_and_key,
+ * tls_ctx_set_tlcp_server_certificate_and_keys.  The files are written with the library's own PEM writers from
+ * the in-memory PKI every other session uses; the loaded context must hold exactly those bytes and keys, wrong
+ * passwords / keys not matching the certificate must be refused, and no call may leave a descriptor open.
+ *   load <tlcp|tls12|tls13> <seed> <rounds> */
+#include <dirent.h>
+static int count_fds(void) { DIR *d = opendir("/proc/self/fd"); struct dirent *e; int n = 0; if (!d) return -1; while ((e = readdir(d))) if (e->d_name[0] != '.') n++; closedir(d); return n - 1; }
+static int write_key(const char *path, const SM2_KEY *k, const char *pass) { FILE *f = fopen(path, "w"); int r; if (!f) return -1; r = sm2_private_key_info_encrypt_to_pem(k, pass, f); fclose(f); return r; }
+static int write_certs(const char *path, const uint8_t *d, size_t n) { FILE *f = fopen(path, "w"); int r; if (!f) return -1; r = x509_certs_to_pem(d, n, f); fclose(f); return r; }
+static void do_load(char **w) {
+	int protocol = proto_of(w[1]), rounds = atoi(w[3]), i, tlcp = protocol == TLS_protocol_tlcp; uint64_t seed = strtoull(w[2], NULL, 10);
+	pki_t *k = get_pki(1); char dir[64] = "/tmp/c08loadXXXXXX", f_chain[96], f_sk[96], f_ek[96], f_ca[96], f_ck[96], f_cchain[96];
+	uint8_t *schain = NULL, *cchain = NULL; size_t schainlen = 0, cchainlen = 0; int fds0, fds1, ok = 1, same = 1, refused = 1;
+	if (protocol < 0 || !k || rounds < 1) { printf("ERR setup"); return; }
+	ent_seed(seed, -1);
+	if (!mkdtemp(dir)) { printf("ERR tmpdir"); return; }
+	snprintf(f_chain, sizeof f_chain, "%s/chain.pem", dir); snprintf(f_sk, sizeof f_sk, "%s/sign.pem", dir); snprintf(f_ek, sizeof f_ek, "%s/enc.pem", dir);
+	snprintf(f_ca, sizeof f_ca, "%s/ca.pem", dir); snprintf(f_ck, sizeof f_ck, "%s/ckey.pem", dir); snprintf(f_cchain, sizeof f_cchain, "%s/cchain.pem", dir);
+	chain_build(&schain, &schainlen, k, &k->ssign, tlcp ? &k->senc : NULL);
+	chain_build(&cchain, &cchainlen, k, &k->csign, NULL);
+	if (write_certs(f_chain, schain, schainlen) != 1 || write_certs(f_cchain, cchain, cchainlen) != 1 || write_certs(f_ca, k->root.der, k->root.len) != 1
+		|| write_key(f_sk, &k->ssign.key, "signpass") != 1 || write_key(f_ek, &k->senc.key, "encpass") != 1 || write_key(f_ck, &k->csign.key, "clientpass") != 1) { printf("ERR write"); return; }
+	fds0 = count_fds();
+	for (i = 0; i < rounds; i++) {
+		TLS_CTX sctx, cctx, bad; int r;
+		/* server side */
+		if (tls_ctx_init(&sctx, protocol, 0) != 1) { ok = 0; break; }
+		r = tlcp ? tls_ctx_set_tlcp_server_certificate_and_keys(&sctx, f_chain, f_sk, "signpass", f_ek, "encpass")
+		         : tls_ctx_set_certificate_and_key(&sctx, f_chain, f_sk, "signpass");
+		if (r != 1 || tls_ctx_set_ca_certificates(&sctx, f_ca, TLS_DEFAULT_VERIFY_DEPTH) != 1) ok = 0;
+		else {
+			if (sctx.certslen != schainlen || memcmp(sctx.certs, schain, schainlen)) same = 0;
+			if (memcmp(&sctx.signkey.private_key, &k->ssign.key.private_key, sizeof(sm2_z256_t)) || sm2_public_key_equ(&sctx.signkey, &k->ssign.key) != 1) same = 0;
+			if (tlcp && (memcmp(&sctx.kenckey.private_key, &k->senc.key.private_key, sizeof(sm2_z256_t)) || sm2_public_key_equ(&sctx.kenckey, &k->senc.key) != 1)) same = 0;
+			if (sctx.cacertslen != k->root.len || memcmp(sctx.cacerts, k->root.der, k->root.len)) same = 0;
+		}
+		tls_ctx_cleanup(&sctx);
+		/* client side with a certificate */
+		if (tls_ctx_init(&cctx, protocol, 1) != 1) { ok = 0; break; }
+		if (tls_ctx_set_certificate_and_key(&cctx, f_cchain, f_ck, "clientpass") != 1 || tls_ctx_set_ca_certificates(&cctx, f_ca, TLS_DEFAULT_VERIFY_DEPTH) != 1) ok = 0;
+		else if (cctx.certslen != cchainlen || memcmp(cctx.certs, cchain, cchainlen) || memcmp(&cctx.signkey.private_key, &k->csign.key.private_key, sizeof(sm2_z256_t))) same = 0;
+		tls_ctx_cleanup(&cctx);
+		/* refusals: wrong password, key not matching the certificate, missing file */
+		if (tls_ctx_init(&bad, protocol, 0) != 1) { ok = 0; break; }
+		if (tlcp) {
+			if (tls_ctx_set_tlcp_server_certificate_and_keys(&bad, f_chain, f_sk, "wrong", f_ek, "encpass") == 1) refused = 0;
+			if (tls_ctx_set_tlcp_server_certificate_and_keys(&bad, f_chain, f_sk, "signpass", f_ek, "wrong") == 1) refused = 0;
+			if (tls_ctx_set_tlcp_server_certificate_and_keys(&bad, f_chain, f_ek, "encpass", f_sk, "signpass") == 1) refused = 0;
+			if (tls_ctx_set_tlcp_server_certificate_and_keys(&bad, f_chain, f_sk, "signpass", "/nonexistent/x.pem", "encpass") == 1) refused = 0;
+		}
+		if (tls_ctx_set_certificate_and_key(&bad, f_chain, f_sk, "wrong") == 1) refused = 0;
+		if (tls_ctx_set_certificate_and_key(&bad, f_chain, f_ck, "clientpass") == 1) refused = 0;
+		if (tls_ctx_set_certificate_and_key(&bad, "/nonexistent/c.pem", f_sk, "signpass") == 1) refused = 0;
+		if (tls_ctx_set_ca_certificates(&bad, "/nonexistent/ca.pem", TLS_DEFAULT_VERIFY_DEPTH) == 1) refused = 0;
+		tls_ctx_cleanup(&bad);
+	}
+	fds1 = count_fds();
+	printf("loaded=%d same=%d refused=%d fds=%d/%d", ok, same, refused, fds0, fds1);
+	unlink(f_chain); unlink(f_sk); unlink(f_ek); unlink(f_ca); unlink(f_ck); unlink(f_cchain); rmdir(dir);
+	free(schain); free(cchain);
+}
+
 static void handle(size_t nw, char **w) {
 	if (!strcmp(w[0], "hs") && (nw == 7 || nw == 8)) do_hs(nw, w);
 	else if (!strcmp(w[0], "hs2") && nw == 6) do_hs2(w);
+	else if (!strcmp(w[0], "load") && nw == 4) do_load(w);
 	else if (!strcmp(w[0], "sigcheck") && nw == 5) {
 		/* sm2_verify called directly: does <sig> verify over <content> under the public key of <cert> with identity <id>? */
 		buf_t id = hex2buf(w[1]), cert = hex2buf(w[2]), content = hex2buf(w[3]), sg = hex2buf(w[4]);
